@@ -3,6 +3,7 @@ package main
 import (
 	"fmt"
 	"go/ast"
+	"go/token"
 	"sort"
 
 	"golang.org/x/tools/go/packages"
@@ -187,6 +188,59 @@ func runC28(c *Ctx) {
 	}
 	if nLab < 3 {
 		c.Unresolved("C28.V2", "fewer than 3 codec Compress returns found")
+	}
+	// A1: a codec never hands out a buffer it also retains in one of its own fields (the next
+	// Compress call would overwrite a block the caller still holds).
+	sliceBase := func(v ssa.Value) ssa.Value {
+		for i := 0; i < 6; i++ {
+			if sl, ok := v.(*ssa.Slice); ok {
+				v = sl.X
+				continue
+			}
+			break
+		}
+		return v
+	}
+	nA := 0
+	for _, fn := range c.P.AllFuncs {
+		if fn.Pkg == nil || fn.Pkg.Pkg.Path() != pkgAlias["cmp"] || fn.Name() != "Compress" || fn.Signature.Recv() == nil || len(fn.Params) == 0 {
+			continue
+		}
+		recv := fn.Params[0]
+		retained := map[ssa.Value]token.Pos{}
+		for _, b := range fn.Blocks {
+			for _, in := range b.Instrs {
+				st, ok := in.(*ssa.Store)
+				if !ok {
+					continue
+				}
+				fa, ok := st.Addr.(*ssa.FieldAddr)
+				if !ok || fa.X != ssa.Value(recv) {
+					continue
+				}
+				retained[sliceBase(st.Val)] = st.Pos()
+			}
+		}
+		for _, b := range fn.Blocks {
+			ret, ok := b.Instrs[len(b.Instrs)-1].(*ssa.Return)
+			if !ok || b == fn.Recover || len(ret.Results) == 0 {
+				continue
+			}
+			nA++
+			base := sliceBase(ret.Results[0])
+			_, aliased := retained[base]
+			// also: returning a slice of a field load directly
+			if u, isLoad := base.(*ssa.UnOp); isLoad {
+				if fa, isFA := u.X.(*ssa.FieldAddr); isFA && fa.X == ssa.Value(recv) {
+					aliased = true
+				}
+			}
+			c.Ob("C28.A1", fn, "returned buffer is not retained by the codec", c.P.Pos(ret.Pos()), !aliased,
+				map[bool]string{true: "", false: "Compress returns a buffer that the codec also keeps in one of its fields: the next Compress call overwrites a compressed block the caller may still hold"}[!aliased])
+		}
+	}
+	if nA < 4 {
+		c.Unresolved("C28.A1", "fewer than 4 Compress returns found")
 	}
 }
 
